@@ -129,6 +129,13 @@ func (s *State) Reset() {
 	s.mu.Unlock()
 }
 
+// SetRows replaces the rows of the script (counters and faults are kept).
+func (s *State) SetRows(rows [][]driver.Value) {
+	s.mu.Lock()
+	s.script.Rows = rows
+	s.mu.Unlock()
+}
+
 // FailNext makes the next driver call of the given kind fail with err (once).
 func (s *State) FailNext(kind string, err error) {
 	s.mu.Lock()
